@@ -1001,6 +1001,7 @@ _has_traits_trait(has_traits_object *obj, PyObject *args)
 {
     has_traits_object *delegate;
     has_traits_object *temp_delegate;
+    has_traits_object *source;
     trait_object *trait;
     PyObject *name;
     PyObject *daname;
@@ -1052,16 +1053,20 @@ _has_traits_trait(has_traits_object *obj, PyObject *args)
             Py_DECREF(trait);
             break;
         }
-        Py_DECREF(delegate);
+        /* The object that 'trait' is a trait of (its reference is released
+           once the name of the next attribute has been worked out): */
+        source = delegate;
         delegate = temp_delegate;
 
         if (!PyHasTraits_Check(delegate)) {
+            Py_DECREF(source);
             Py_DECREF(trait);
             bad_delegate_error2(obj, name);
             break;
         }
 
-        daname2 = trait->delegate_attr_name(trait, obj, daname);
+        daname2 = trait->delegate_attr_name(trait, source, daname);
+        Py_DECREF(source);
         Py_DECREF(daname);
         daname = daname2;
         Py_DECREF(trait);
